@@ -2,6 +2,7 @@
 # usage: tools/eval_harmless.sh [Cxx...] — applies each behaviour-preserving rewrite /tmp/harmless-<Cxx>/patch.diff to a scratch worktree
 # of /repo's HEAD and runs the property's quick check (seeds 0 and 1) against it: the expected verdict is exit 0, no VIOLATION line.
 W=/var/tmp/vr-main
+[ -d $W ] || git -C /repo worktree add -q --detach $W HEAD
 IDS=${*:-$(ls -d /tmp/harmless-C?? 2>/dev/null | sed 's#/tmp/harmless-##')}
 for P in $IDS; do
   D=/tmp/harmless-$P
